@@ -55,15 +55,23 @@ Proof. exact intersection_built. Qed.
        HasQuorum iff that weight >= floor(2W/3)+1, out-of-range index panics) --- *)
 Theorem C11_counter_refines_spec : forall ops vs cops, weights_fit ops -> build ops = Some vs ->
   fst (run_counter (new_counter vs) cops) =
-  spec_counter (map snd (canon ops)) (spec_total ops) (spec_idx ops) [] cops.
-Proof. exact counter_refines. Qed.
+  spec_counter (map snd (spec_array (eff_pairs ops))) (spec_total ops) (spec_idx ops) [] cops.
+Proof. exact counter_refines_rank. Qed.
+(* the right-hand side above uses no sort: spec_array places every pair by its rank.  It is the
+   same array as the model's sorted one (so the theorem can equally be read with canon ops) *)
+Theorem C11_spec_array_is_canon : forall ops, spec_array (eff_pairs ops) = canon ops.
+Proof. exact spec_array_canon. Qed.
 (* each weight at most once: the specification's counted sum is a weighted sum over a set *)
 Theorem C11_counted_once : forall ws counted,
   counted_sum ws counted = wsum (wpos ws) (positions ws) (in_set counted) /\
   counted_sum ws counted <= sumN ws.
 Proof. intros ws c; split; [exact (counted_sum_wsum ws c) | exact (counted_sum_le ws c)]. Qed.
-(* state invariant form: whenever the counter state corresponds to the counted set c,
+(* state invariant form: every counter state reachable by a call sequence on a built set
+   corresponds to a set c of counted positions (cinv), and in every such state
    HasQuorum <-> counted weight >= quorum <-> counted weight > 2/3 of the total *)
+Theorem C11_reachable_states_invariant : forall ops vs cops k, weights_fit ops -> build ops = Some vs ->
+  snd (run_counter (new_counter vs) cops) = Some k -> exists c, cinv vs k c.
+Proof. exact counter_reachable_inv. Qed.
 Theorem C11_has_quorum_iff : forall vs k c, cinv vs k c ->
   (has_quorum k = true <->
      quorum_spec (total_weight vs) <= wsum (wpos (sorted_weights vs)) (positions (sorted_weights vs)) (in_set c)) /\
@@ -98,5 +106,7 @@ Print Assumptions C11_whole_set_reaches.
 Print Assumptions C11_two_thirds_do_not.
 Print Assumptions C11_intersection.
 Print Assumptions C11_counter_refines_spec.
+Print Assumptions C11_spec_array_is_canon.
+Print Assumptions C11_reachable_states_invariant.
 Print Assumptions C11_counted_once.
 Print Assumptions C11_has_quorum_iff.
